@@ -232,6 +232,37 @@ def build_snapshot(fns):
     return [sc]
 
 
+def build_task_accounting(fns):
+    """The background upload task spawned by register_new_xorb_for_upload: once upload_xorb has succeeded, every path to the
+    task's completion adds the transmitted bytes to the session's xorb_bytes_uploaded (the counter must not depend on who
+    joins the task, or when)."""
+    f = mir.find_fn(fns, r"file_upload_session::.*register_new_xorb_for_upload::\{closure#0\}::\{closure#0\}$")
+    g = modeb.CFG(f)
+    idx = metric_fields()["xorb_bytes_uploaded"]
+    up = [b for b in g.blocks_calling(r"as Try>::branch$") if re.search(r"Result<usize, .*CasClientError>", g.term[b]["func"])]
+    if not up:
+        raise LookupError("upload task: the upload_xorb result is no longer a Result<usize, CasClientError> checked with `?`")
+    ok_src = []
+    for b in up:
+        nb = g.term[b]["target"]
+        tt = g.term.get(nb)
+        if tt and tt["kind"] == "switch":
+            ok_src += [v for k, v in tt["targets"] if k == 0]
+    if not ok_src:
+        raise LookupError("upload task: Continue edge of the upload result not found")
+    adds = []
+    for b in g.nodes:
+        for st in f.blocks[b][0]:
+            m = re.match(r"\(\(\*(_\d+)\)\.%d: usize\) = " % idx, st)
+            if m and "DeduplicationMetrics" in f.locals.get(m.group(1), ""):
+                adds.append(b)
+    sc = smt.Script("c14_upload_task_accounts")
+    modeb.no_path_query(g, sc, "a successful background upload adds its bytes to the session's xorb_bytes_uploaded before the task completes",
+                        ok_src, sorted(g.real_returns), adds)
+    modeb.no_path_query(g, sc, "witness: task completion reachable after a successful upload", ok_src, sorted(g.real_returns), [], expect="sat", kind="witness")
+    return [sc]
+
+
 def replay_snapshot(model, fnd, prop):
     env = base_env()
     env["CARGO_TARGET_DIR"] = os.path.join(BUILD, "replay_target")
@@ -279,6 +310,9 @@ def replay(model, fnd, prop):
 SMT = [
     Q("c14_metrics_snapshot", "session metrics are read out after all upload tasks were joined (Mode B)", "data", build_snapshot,
       functions=["data::file_upload_session::FileUploadSession::finalize_impl"], bounds="all CFG paths", replay=replay_snapshot, solvers=("z3", "cvc5-bv")),
+    Q("c14_upload_task_accounts", "a successful background upload is added to the session counter inside the task (Mode B)", "data", build_task_accounting,
+      functions=["data::file_upload_session::FileUploadSession::register_new_xorb_for_upload (spawned upload task)"], bounds="all CFG paths", solvers=("z3", "cvc5-bv"),
+      replay=_native("c14_upload_completion_order", "reported_xorb_bytes_do_not_depend_on_completion_order")),
     Q("c14_loop_step", "conservation laws as an inductive step of process_chunks' result loop", "deduplication", build_loop,
       functions=["deduplication::file_deduplication::FileDeduper::process_chunks (result-processing loop body)"], bounds="one iteration from an arbitrary state", replay=replay),
     Q("c14_local_run_bytes", "byte count of an in-xorb self-reference run (loop step)", "deduplication", build_local_run,
